@@ -32,3 +32,10 @@ Definition pos_case (cfg src : bytes) : option bytes :=
     end
   | _ => None
   end.
+
+(* the same for the program lexer *)
+Definition posprog_case (src : bytes) : option bytes :=
+  match scan_program go_unicode src with
+  | Done toks _ => Some [if forallb (tok_pos_ok src) toks then 49 else 48]
+  | _ => None
+  end.
